@@ -529,6 +529,7 @@ func (e flattenEngine) Check(prop, tier string, c *runner.Case) *runner.Result {
 		res.Ev("calls:"+o, 1)
 		for site, n := range run.Stats.Loops {
 			res.EvMax("max_loop_iterations", n)
+			res.EvMax("max_loop:"+site, n)
 			res.Ev("loop_iterations:"+site, n)
 		}
 		res.EvMax("max_schema_depth", run.Stats.MaxDepth)
